@@ -14,6 +14,7 @@ import gen_radii  # noqa: E402
 from pyast import TranslationError, NAN  # noqa: E402
 
 LEVEL = "proof"
+STATIC = ["Geometry/Radii.vo", "Reflect/RadiiReflect.vo", "Base/CaseUtil.vo"]
 PRESETS = ["covalent", "vdw", "vdw_covalent"]
 
 
